@@ -306,6 +306,9 @@ enum CtxOp {
     Rewind { to: usize },
     Executed { idx: usize },
     Frontier { got: usize },
+    /// witness: after rewind(to) returned, lower_timestamp(to) does not exceed a timestamp
+    /// captured before the call
+    StaleLowerTs { to: usize, ts_before: usize, lower_after: usize },
 }
 
 #[derive(Clone, Debug)]
@@ -363,10 +366,18 @@ fn c15_context(iter_seed: u64, r: &mut Rng, rep: &mut ShardReport) {
                     for _ in 0..per.min(4) {
                         jitter(&mut tr);
                         let to = tr.below(n as u64) as usize;
+                        // a validation that captured its timestamp before this rewind began must
+                        // not be able to pass finality afterwards: the rewind has to raise the
+                        // index's lower timestamp above it, whatever the cursor position was
+                        let ts_before = ctx.logical_timestamp();
                         let call = clock.tick();
                         ctx.rewind(to);
                         let ret = clock.tick();
+                        let lower_after = ctx.lower_timestamp(to);
                         out.push(CtxRec { thread: t, call, ret, op: CtxOp::Rewind { to } });
+                        if lower_after <= ts_before {
+                            out.push(CtxRec { thread: t, call, ret, op: CtxOp::StaleLowerTs { to, ts_before, lower_after } });
+                        }
                     }
                 } else if t < claimers + rewinders + publishers {
                     for idx in chunk {
@@ -436,6 +447,14 @@ fn c15_context(iter_seed: u64, r: &mut Rng, rep: &mut ShardReport) {
     let fail = |rep: &mut ShardReport, msg: String| {
         rep.findings.push(finding("C15", "FRONTIER", msg, iter_seed, hist.clone()));
     };
+    for o in &all {
+        if let CtxOp::StaleLowerTs { to, ts_before, lower_after } = o.op {
+            fail(rep, format!(
+                "rewind_validation_to({to}) returned but lower_timestamp({to}) = {lower_after} does not exceed a validation timestamp {ts_before} captured before the rewind began: that validation could still reach finality"
+            ));
+            return;
+        }
+    }
     // quiescent frontier = first unpublished index = n (every index was published)
     if q_frontier != n {
         fail(rep, format!("after all {n} indices were published and every thread joined, the execution frontier is {q_frontier}"));
